@@ -70,3 +70,26 @@ package server
 //@ arith int
 //@ requires specServableRange(br, objectSize)
 //@ ensures[C05:content-range-names-the-slice] result == "bytes " + strconv.Itoa(int(specRangeLo(br, objectSize))) + "-" + strconv.Itoa(int(specRangeHi(br, objectSize))) + "/" + strconv.Itoa(int(objectSize))
+
+// C06. Following the continuation markers: a listing page starts right behind the marker of the previous page -
+// `marker` (v1) / `continuation-token` (v2) take precedence over `start-after`, which only positions the first page -
+// and prefix, delimiter and page size are the request's.
+//@ func (*Server).listObjectsV2Handler
+//@ mode effects
+//@ effect[C06:v2-page-starts-behind-the-continuation-token] every s.listAndFilterObjects(_, _, $b, $o)
+//@     needs before httputils.GetQueryParam(_, $n1) -> ($tok) needs before httputils.GetQueryParam(_, $n2) -> ($sa)
+//@     where $n1 == continuationTokenQuery && $n2 == startAfterQuery &&
+//@         (($tok != nil && specSameOptStr($o.StartAfter, $tok)) || ($tok == nil && specSameOptStr($o.StartAfter, $sa)))
+//@ effect[C06:v2-prefix-and-delimiter-of-the-request] every s.listAndFilterObjects(_, _, $b, $o)
+//@     needs before httputils.GetQueryParam(_, $n1) -> ($p) needs before httputils.GetQueryParam(_, $n2) -> ($d)
+//@     where $n1 == prefixQuery && $n2 == delimiterQuery && specSameOptStr($o.Prefix, $p) && specSameOptStr($o.Delimiter, $d) && $o.MaxKeys >= 0 && int64($o.MaxKeys) <= maxListLimit
+
+//@ func (*Server).listObjectsHandler
+//@ mode effects
+//@ effect[C06:v1-page-starts-behind-the-marker] every s.listAndFilterObjects(_, _, $b, $o)
+//@     needs before httputils.GetQueryParam(_, $n1) -> ($tok) needs before httputils.GetQueryParam(_, $n2) -> ($sa)
+//@     where $n1 == markerQuery && $n2 == startAfterQuery &&
+//@         (($tok != nil && specSameOptStr($o.StartAfter, $tok)) || ($tok == nil && specSameOptStr($o.StartAfter, $sa)))
+//@ effect[C06:v1-prefix-and-delimiter-of-the-request] every s.listAndFilterObjects(_, _, $b, $o)
+//@     needs before httputils.GetQueryParam(_, $n1) -> ($p) needs before httputils.GetQueryParam(_, $n2) -> ($d)
+//@     where $n1 == prefixQuery && $n2 == delimiterQuery && specSameOptStr($o.Prefix, $p) && specSameOptStr($o.Delimiter, $d) && $o.MaxKeys >= 0 && int64($o.MaxKeys) <= maxListLimit
